@@ -23,6 +23,9 @@ type hookDB struct {
 	l1Reads     atomic.Int64
 	heightReads atomic.Int64
 	suReads     atomic.Int64
+	// onSURead is called with the running count at every state-update read (one per block a prune / migration
+	// worker starts on): lets the harness interrupt INSIDE a phase, not only at batch writes
+	onSURead atomic.Pointer[func(int64)]
 	// busy > 0 while a hook of the harness runs inside a batch write (observations, forks): waiting for
 	// the pruner must not count that time as a hang of the pruner
 	busy atomic.Int64
@@ -60,7 +63,10 @@ func (h *hookDB) Get(key []byte, cb func([]byte) error) error {
 	case bytes.Equal(key, chainHeightKey):
 		h.heightReads.Add(1)
 	case bytes.HasPrefix(key, suPrefix) && len(key) == len(suPrefix)+8:
-		h.suReads.Add(1)
+		n := h.suReads.Add(1)
+		if cb := h.onSURead.Load(); cb != nil {
+			(*cb)(n)
+		}
 	}
 	return h.Database.Get(key, cb)
 }
